@@ -1,5 +1,7 @@
 package main
 
+import "golang.org/x/tools/go/ssa"
+
 func init() {
 	register("C03", checkC03)
 	register("C04", checkC04)
@@ -20,6 +22,9 @@ func checkC03(p *Prog, r *Report) {
 		return false
 	})
 	checkLookupBody(p, r, "C03")
+	// stored documents are what handlers wrote: code that rewrites them in a loop (listing, export, migration) decodes each entry
+	// into a fresh variable — a reused target merges one DID's keys into the next one's document
+	r.Count("in-loop-decode-targets(x/did)", checkLoopFreshDecode(p, r, "C03", func(fn *ssa.Function) bool { return InPkgs(fn, "x/did") }))
 	checkInitGenesisCallers(p, r, "C03", "x/did")
 	wireKeyOwnership(p, r, BuildWire(p), "C03", "did", []string{"x/did/keeper.NewKeeper"}, "DID documents")
 }
